@@ -4114,9 +4114,10 @@ func (vm *Thread) CaptureStackTrace() *value.StackTrace {
 
 func (vm *Thread) populateMissingParametersInSlice(args []value.Value, paramCount, argumentCount int) []value.Value {
 	// populate missing optional arguments with undefined
-	missingParams := uintptr(paramCount - argumentCount)
-	if missingParams > 0 {
-		newArgs := make([]value.Value, paramCount)
+	// `args` holds self followed by the arguments; callers (eg. code generated by the Go backend)
+	// may pass more slots than the method has parameters
+	if paramCount > argumentCount {
+		newArgs := make([]value.Value, paramCount+1)
 		copy(newArgs, args)
 		return newArgs
 	}
